@@ -211,6 +211,7 @@ struct HPca : Harness {
       for (int k = 0; k < kmax && !o.violation; k++) {
         LVec vk = lcol(V, k);
         LD c = fabsl(ldot(P[k], vk)), sn = sqrtl(fmaxl(0, 1 - c * c));
+        { uint64_t pm = (uint64_t)(1000.0L * sn / tol.sin_angle[k]); if (pm > o.counters["max.permille_of_angle_tolerance_used"]) o.counters["max.permille_of_angle_tolerance_used"] = pm; }
         if (sn > tol.sin_angle[k]) { char m[260]; snprintf(m, sizeof m, "loading %d is not the %d-th principal axis: sin(angle) = %.3Lg, the documented criterion allows %.3g (eigenvalue ratio to the next %.3Lg)", k, k + 1, sn, tol.sin_angle[k], k + 1 < (int)ev.size() ? ev[k + 1] / ev[k] : 0.0L); o.fail("not-principal-axis", m); }
         LD want = ev[k] / tr * 100;
         if (!o.violation && fabsl((LD)M.varexp[k] - want) > tol.eval_rel[k] * want + 1e-9L) { char m[240]; snprintf(m, sizeof m, "explained variance %d is %.10g, eigenvalue/trace gives %.10Lg (allowed relative error %.3g)", k, M.varexp[k], want, tol.eval_rel[k]); o.fail("wrong-eigenvalue", m); }
@@ -240,7 +241,7 @@ struct HPca : Harness {
             for (int i = 0; i < n; i++) dt += (t2[i] - sgn * te[i]) * (t2[i] - sgn * te[i]);
             static const char *tn_[] = {"permuting objects", "permuting variables", "rotating the data"};
             if (sqrtl(dp) > tolk) { char m[240]; snprintf(m, sizeof m, "%s does not transform loading %d accordingly (difference %.3Lg, allowed %.3g)", tn_[tf], k, sqrtl(dp), tolk); o.fail("not-equivariant", m); }
-            else if (sqrtl(dt) > tolk * (tn + 1e-300L)) { char m[240]; snprintf(m, sizeof m, "%s does not transform score %d accordingly (relative difference %.3Lg, allowed %.3g)", tn_[tf], k, sqrtl(dt) / tn, tolk); o.fail("not-equivariant", m); }
+            else if (sqrtl(dt) > (3 * tol.score_rel[k] + 1e-8) * (tn + 1e-300L)) { char m[240]; snprintf(m, sizeof m, "%s does not transform score %d accordingly (relative difference %.3Lg, allowed %.3g)", tn_[tf], k, sqrtl(dt) / tn, 3 * tol.score_rel[k] + 1e-8); o.fail("not-equivariant", m); }
           }
           o.counters[std::string("probe.equivariance_") + (tf == 0 ? "objects" : tf == 1 ? "variables" : "rotation")]++;
         }
